@@ -30,6 +30,20 @@ Definition expected_skeleton : list (string * list string) := [
     "endif";
     "endfor";
     "return:copy"]);
+  ("SpatialTransform.__deepcopy__",
+   ["for:buf in self._buffers.values()";
+    "if:isinstance(buf, Tensor) and (not buf.is_leaf) and (id(buf) not in memo)";
+    "call:isinstance(buf, Tensor)";
+    "call:buf.detach().clone()";
+    "call:buf.detach()";
+    "setitem:memo[id(buf)]";
+    "endif";
+    "endfor";
+    "call:self.__new__(type(self))";
+    "setitem:memo[id(self)]";
+    "call:deepcopy(self.__dict__, memo)";
+    "set:copy.__dict__=deepcopy(self.__dict__, memo)";
+    "return:copy"]);
   ("SpatialTransform.condition",
    ["if:args or kwargs";
     "call:shallow_copy(self).condition_(*args, **kwargs)";
@@ -325,7 +339,10 @@ Definition expected_skeleton : list (string * list string) := [
     "if:isinstance(params, Tensor)";
     "call:isinstance(params, Tensor)";
     "call:self.axes()";
+    "call:prev_grid.reshape(params.shape[2:])";
+    "call:FlowFields(params, grid=flow_grid, axes=flow_axes)";
     "call:flow.sample(self.data_grid(grid))";
+    "call:self.data_grid(grid)";
     "call:flow.axes(grid_axes)";
     "call:super().grid_(grid)";
     "try";
@@ -571,4 +588,9 @@ Lemma generic_inverse_ok : gen_generic_inverse_ok = true.
 Proof. vm_compute. reflexivity. Qed.
 
 Lemma accessor_private_ok : gen_accessor_private = true.
+Proof. vm_compute. reflexivity. Qed.
+
+Lemma regrid_reads_old_lattice_ok : gen_regrid_reads_old_lattice = true.
+Proof. vm_compute. reflexivity. Qed.
+Lemma deepcopy_clones_ok : gen_deepcopy_clones = true.
 Proof. vm_compute. reflexivity. Qed.
